@@ -269,6 +269,12 @@ static void decode_cfg(struct tape *t, struct rt_cfg *c, const struct gm_spec *g
 	                   : hs == 2 ? (1U << RSV_SITE_GVT_PHASE | 1U << RSV_SITE_MAIN_LOOP)
 	                   : hs == 3 ? (1U << RSV_SITE_QUEUE_INSERT_CAS | 1U << RSV_SITE_QUEUE_SWAP | 1U << RSV_SITE_QUEUE_INSERT)
 	                             : 0;
+	if(!strcmp(PROP, "C04") && hs == 0 && (c->sched.seed & 1))
+		/* C04: every other case without hot sites interleaves finely around the reduction (steps of the GVT algorithm,
+		 * message extraction, buffer insertion): the windows of the thread-level reduction are one loop iteration wide */
+		c->sched.hot_sites = 1U << RSV_SITE_GVT_PHASE | 1U << RSV_SITE_MAIN_LOOP | 1U << RSV_SITE_PROCESS_MSG | 1U << RSV_SITE_QUEUE_INSERT;
+	if(getenv("RSV_ATOMIC_STEPS") && (c->sched.seed & 2))
+		c->sched.hot_sites |= 1U << 15; /* atomic-step variant: every atomic operation of the core is a hot site in half of the cases */
 	c->sched.clock_div = (unsigned[]){4, 1, 16, 64}[t_choice(t, 4)];
 	c->sched.batch = (unsigned[]){0, 8, 1, 0, 3, 24, 0, 2}[t_choice(t, 8)];
 	if(!strcmp(PROP, "C03") || !strcmp(PROP, "C04") || !strcmp(PROP, "C20") || !strcmp(PROP, "C13")) {
